@@ -62,6 +62,8 @@ fn get_comment_style(text: &str) -> CommentStyle {
 fn get_follow_leading(text: &str) -> Option<usize> {
     text.lines()
         .skip(1)
+        // Lines holding only blanks (of any kind) are stripped to empty lines later and must not count.
+        .filter(|line| !line.trim().is_empty())
         .map(|line| line.chars().position(|c| c != ' ').unwrap_or(usize::MAX))
         .min()
 }
@@ -75,7 +77,7 @@ fn align_multiline<'a>(arena: &'a Arena<'a>, text: &'a str) -> ArenaDoc<'a> {
             doc += line;
         } else {
             doc += arena.hardline();
-            if line.len() > leading {
+            if !line.trim().is_empty() {
                 doc += &line[leading..]; // Remove line prefix
             } // otherwise this line is blank
         }
